@@ -290,6 +290,45 @@ class Prover:
                     pass
         return out, seen
 
+    def resolve_ites(self, terms, extra_hyps=()):
+        """Decide the conditions of the if-then-else atoms occurring in the
+        normal forms of `terms` (e.g. the sign test inside abs / max) from the
+        hypotheses; decided conditions are recorded so that later normal forms
+        select the branch.  Returns the number of conditions decided."""
+        from .poly import Poly
+        N = self.N
+        n = 0
+        for _round in range(3):
+            todo = []
+            for t in terms:
+                try:
+                    p = N.norm(t)
+                except Unsupported:
+                    continue
+                for a in p.atoms():
+                    if N.atoms.info[a][0] == "ite":
+                        ck = N.atoms.info[a][1][0]
+                        if isinstance(ck, tuple) and ck[0] == "ge0" and ck not in N.known:
+                            todo.append(ck)
+            if not todo:
+                break
+            progress = False
+            for ck in todo:
+                q = Poly(dict(ck[1]))
+                if self.prove_ge_poly(q, extra_hyps=extra_hyps)[0] == "discharged":
+                    N.known[ck] = True
+                    progress = True
+                    n += 1
+                elif self.prove_ge_poly(-q, strict=True, extra_hyps=extra_hyps)[0] == "discharged":
+                    N.known[ck] = False
+                    progress = True
+                    n += 1
+            N._known_scanned = True
+            N.memo.clear()
+            if not progress:
+                break
+        return n
+
     # ---- provers
     def prove_eq(self, a, b):
         t0 = time.time()
